@@ -1,6 +1,6 @@
 (** C20 — property theorems only.  Each is closed by [exact] of a lemma in Proofs.v and
     followed by [Print Assumptions]. *)
-From V Require Import Base.Util C20.Model C20.Proofs.
+From V Require Import Base.Util C20.Model C20.Proofs C20.StrProofs.
 
 Theorem C20_normalize_idempotent : forall p, normalize (normalize p) = normalize p.
 Proof. exact normalize_idem. Qed.
@@ -25,3 +25,14 @@ Theorem C20_relative_starts_dot : forall a b r,
   r = [] \/ exists t, r = Cur :: t \/ r = Par :: t.
 Proof. exact relative_starts_dot. Qed.
 Print Assumptions C20_relative_starts_dot.
+
+Theorem C20_relative_empty_iff : forall a b,
+  abs_ok a = true -> abs_ok b = true ->
+  (relative a b = Some [] <-> normalize b = pop (normalize a)).
+Proof. exact relative_empty_iff. Qed.
+Print Assumptions C20_relative_empty_iff.
+
+(** string level: reading back a written path gives its components *)
+Theorem C20_components_render : forall cs, canonical cs = true -> components (render cs) = cs.
+Proof. exact components_render. Qed.
+Print Assumptions C20_components_render.
